@@ -194,6 +194,11 @@ def scenarios(ctx):
     maps = ["dense4", "blocks", "interleaved", "random", "singleton", "noshank0", "gap"]
     ws = [1200, 2400, 3612]
     lens_small = [600, 1199, 1200, 1201, 1825, 2399, 2401, 3000, 3613, 4037, 5000]
+    if not ctx.quick:
+        # thorough: two more windows; every residue mod 12 just above one window and around whole strides of each window
+        ws = [1200, 2400, 3612, 1812, 6000]
+        lens_small = sorted(set(lens_small) | {577, 1153} | {1200 + r for r in range(1, 13)}
+                            | {w + k * (w - 576) + d for w in (1200, 1812) for k in (1, 2, 3) for d in (-1, 0, 1, 5, 11)})
     # 8-channel recordings: volume (every map kind x gain x window x awkward lengths)
     k = 0
     for m in maps[1:]:
@@ -211,6 +216,11 @@ def scenarios(ctx):
             k += 1
             big.append({"n": 384, "nshank": 4, "map": m, "gain": list(g), "w": ws[(j + k) % 3], "ns": [2999, 4037, 3613][k % 3],
                         "seed": seed + k})
+    if not ctx.quick:
+        for j in range(16):      # more full-size runs: lengths over every residue mod 12, all windows
+            k += 1
+            big.append({"n": 384, "nshank": 4, "map": maps[j % len(maps)], "gain": list(n2.GAINSETS[j % 4]), "w": ws[j % len(ws)],
+                        "ns": 2400 + 97 * j + j % 12, "seed": seed + k})
     # recordings longer than the reconstructor's own (hard-wired) window of 60000 samples: several windows on the way back too
     for j, ns in enumerate([61234, 120000] if ctx.quick else [60001, 61234, 119999, 120000, 125017, 180001]):
         k += 1
